@@ -8,6 +8,8 @@
   `Koreo/Gen/CelTables.lean` is regenerated from the sources on every run.
 -/
 import Koreo.Lemmas.WorkflowPrep
+import Koreo.Lemmas.PrepToWorkflow
+import Koreo.Lemmas.CelAstConservative
 import Koreo.Gen.CelTables
 
 namespace Koreo.C14
@@ -52,6 +54,19 @@ theorem keys_come_from_nodes {e : Cel} {ks : List String} {k : String}
   have := collect_sub (rs := e.subtrees.map (visit modelDispatch)) hx hk
   obtain ⟨s, hs, hv⟩ := List.mem_map.1 this
   exact ⟨s, hs, hv⟩
+
+/-- Fix F5 is conservative: on **every** tree on which the extractor with the pre-repair tables
+    (`unrepairedDispatch`: each of the ten `raise` statements propagates) returned a key set, the
+    repaired extractor returns the same key set.  The repair only turns exceptions into results. -/
+theorem fix_conservative {t : Cel} {ks : List String}
+    (h : extractWith unrepairedDispatch t = .ok ks) : extract t = .ok ks :=
+  extractWith_conservative t ks h
+
+/-- …so every dependency the old analysis recorded is still recorded, and nothing is added -/
+theorem fix_keeps_dependencies {t : Cel} {ks : List String}
+    (h : extractWith unrepairedDispatch t = .ok ks) :
+    (extract t).toOption.map stepDeps = some (stepDeps ks) := by
+  rw [fix_conservative h]; rfl
 
 /-! ## dependencies of a step: complete, and only on earlier steps -/
 
@@ -110,11 +125,8 @@ theorem deps_complete {env : Env} {s : StepSpec} {known : List String} {out : St
 
 /-- a prepared step depends on already seen labels only -/
 theorem deps_are_known {env : Env} {s : StepSpec} {known : List String} {out : StepOut} {deps : List String}
-    (h : loadStep env s known = .ok out) (hr : out.result = .step deps) : ∀ n ∈ deps, n ∈ known := by
-  obtain ⟨_, _, _, acc, _, _, rfl, hall, _⟩ := loadStep_step h hr
-  intro n hn
-  have := List.all_eq_true.1 hall n hn
-  simpa using this
+    (h : loadStep env s known = .ok out) (hr : out.result = .step deps) : ∀ n ∈ deps, n ∈ known :=
+  Koreo.C14Aux.deps_known h hr
 
 /-- a step that names a label not seen before it is not prepared as a `Step` -/
 theorem step_bad_order_rejected {env : Env} {s : StepSpec} {known : List String} {out : StepOut}
@@ -178,6 +190,46 @@ theorem prepared_steps_depend_on_earlier {env : Env} {pre post : List StepSpec} 
       rcases (mem_knownAfter pre []).1 this with h1 | h1
       · cases h1
       · exact h1
+
+/-! ## a Workflow reported ready is well-formed in the sense C01 / C02 assume -/
+
+open Koreo.PrepToWorkflow in
+/-- `Koreo.Workflow.Workflow.WF` (distinct labels, every dependency names an earlier step) is the
+    standing hypothesis of the run-time theorems of C01 / C02.  It holds of every Workflow that
+    `prepare_workflow` reports ready (`steps_ready` Ok), translated into the run-time model with its
+    labels and the dependency sets `_load_step` recorded — whatever the translation `tr` of the
+    (opaque) expressions. -/
+theorem prepared_ready_implies_WF {env : Env} {spec : List StepSpec} {w : WfOut}
+    (tr : Cel → Koreo.Workflow.Expr) (name : String)
+    (h : prepareWorkflow env spec = .ok w) (hready : w.ready = .ok) :
+    (toWorkflow tr name spec w).WF = true := by
+  unfold prepareWorkflow at h
+  split at h
+  · simp only [pure, Except.pure, Except.ok.injEq] at h; subst h; cases hready
+  · cases hl : loadStepsLoop env spec [] with
+    | error e => simp [hl] at h
+    | ok v =>
+      obtain ⟨rs, res, pp⟩ := v
+      simp only [hl, pure, Except.pure, Except.ok.injEq] at h
+      subst h
+      exact loop_wfSteps tr spec [] [] rs res pp (fun _ => Iff.rfl) hl (readyOf_ok hready)
+
+open Koreo.PrepToWorkflow in
+/-- …and the translation is faithful on what `WF` talks about: every step is kept, in order, under
+    its label (so `WF` is not about an emptied workflow) -/
+theorem translation_keeps_steps {env : Env} {spec : List StepSpec} {w : WfOut}
+    (tr : Cel → Koreo.Workflow.Expr) (name : String) (h : prepareWorkflow env spec = .ok w) (hne : spec ≠ []) :
+    Koreo.Workflow.labels (toWorkflow tr name spec w).steps = spec.map StepSpec.lbl := by
+  unfold prepareWorkflow at h
+  have : spec.isEmpty = false := by cases spec <;> simp_all
+  simp only [this, Bool.false_eq_true, if_false] at h
+  cases hl : loadStepsLoop env spec [] with
+  | error e => simp [hl] at h
+  | ok v =>
+    obtain ⟨rs, res, pp⟩ := v
+    simp only [hl, pure, Except.pure, Except.ok.injEq] at h
+    subst h
+    exact toSteps_labels tr spec rs (loop_length spec [] rs res pp hl)
 
 /-! ## everything a definition names is watched -/
 
@@ -377,5 +429,22 @@ example :
        { label := some "two", ref := some ⟨"ValueFunction", "g"⟩, refSwitch := none, skipIf := .absent,
          forEach := none, state := .absent, inputs := .absent }]).toOption.map (fun r => (r.ready, r.watched))
     = some (.permFail, [("ValueFunction", "f"), ("ValueFunction", "g")]) := by decide
+
+/-- a ready two-step workflow, translated: labels and recorded dependencies arrive in the run-time model -/
+example :
+    ((prepareWorkflow (fun _ => .ready false [])
+      [{ label := some "one", ref := some ⟨"ValueFunction", "f"⟩, refSwitch := none, skipIf := .absent,
+         forEach := none, state := .absent, inputs := .absent },
+       { label := some "two", ref := some ⟨"ValueFunction", "g"⟩, refSwitch := none, skipIf := .absent,
+         forEach := none, state := .absent,
+         inputs := .ast (Cel.liftMember (Cel.member (Cel.memberDot (Cel.var "steps") "one"))) }]).toOption.map
+      fun w => (w.ready, (Koreo.PrepToWorkflow.toSteps (fun _ => .bad)
+        [{ label := some "one", ref := some ⟨"ValueFunction", "f"⟩, refSwitch := none, skipIf := .absent,
+           forEach := none, state := .absent, inputs := .absent },
+         { label := some "two", ref := some ⟨"ValueFunction", "g"⟩, refSwitch := none, skipIf := .absent,
+           forEach := none, state := .absent,
+           inputs := .ast (Cel.liftMember (Cel.member (Cel.memberDot (Cel.var "steps") "one"))) }]
+        w.steps).map fun s => (s.label, s.deps)))
+    = some (.ok, [("one", []), ("two", ["one"])]) := by decide
 
 end Koreo.C14
